@@ -56,6 +56,9 @@ pub struct Case {
     pub reliable: bool,
     /// (gap to previous event in ms, event)
     pub events: Vec<(u64, Ev)>,
+    /// every write on the transport takes 2 ms of virtual time (messages can arrive while a response is being sent)
+    #[serde(default)]
+    pub slow_send: bool,
     pub rng: u8,
 }
 
@@ -93,6 +96,7 @@ pub fn strategy() -> BoxedStrategy<Case> {
         .prop_map(|(reliable, evs, rng)| Case {
             reliable,
             events: evs.into_iter().map(|(g, e)| (GAPS[pick_idx(g, GAPS.len())], e)).collect(),
+            slow_send: rng % 3 == 0,
             rng,
         })
         .boxed()
@@ -125,7 +129,8 @@ pub fn lifecycle_strategy() -> BoxedStrategy<Case> {
             }
             let mut events = vec![(1, Ev::Req(base.clone())), (g1, Ev::Answer { sel: 0, kind })];
             if ack && m == 0 {
-                events.push((50, Ev::Req(ReqEv { method: 4, ..base.clone() })));
+                // (1 ms: while the answer is still being written on a slow transport)
+                events.push((if rng % 4 < 2 { 1 } else { 50 }, Ev::Req(ReqEv { method: 4, ..base.clone() })));
             }
             events.push((g2, Ev::Req(copy.clone())));
             events.push((1, Ev::Req(base)));
@@ -133,7 +138,7 @@ pub fn lifecycle_strategy() -> BoxedStrategy<Case> {
             events.push((g3, Ev::Resp { slot: 0, branch: 0, cseq_method: 0, code }));
             events.push((g4, Ev::Resp { slot: 0, branch: rb, cseq_method: rc, code: code2 }));
             events.push((1, Ev::Resp { slot: 0, branch: 0, cseq_method: 0, code: code2 }));
-            Case { reliable, events, rng }
+            Case { reliable, events, slow_send: rng % 2 == 0, rng }
         })
         .boxed()
 }
@@ -542,11 +547,12 @@ fn req_bytes(marker: &str, r: &ReqEv, client_branches: &[Option<String>; 2]) -> 
 
 pub fn run(case: &Case, pred: &Prediction) -> Observed {
     let reliable = case.reliable;
+    let slow = case.slow_send;
     let rng = case.rng as u64;
     let script = pred.script.clone();
     run_world(rng, |clock| async move {
         let log = WireLog::new(clock);
-        let (tp, _) = mock_datagram(&log, "UDP", false, reliable, "10.0.0.1:5060");
+        let (tp, _) = mock_datagram_slow(&log, "UDP", false, reliable, "10.0.0.1:5060", if slow { 2 } else { 0 });
         let rec = Recorder::new(clock);
         let (tx, mut rx) = mpsc::unbounded_channel();
         let mut b = offline_builder();
@@ -734,6 +740,11 @@ pub fn run(case: &Case, pred: &Prediction) -> Observed {
             drain!();
         }
         settle().await;
+        if slow {
+            // let writes that are still in progress finish
+            clock.advance(10).await;
+            settle().await;
+        }
         let seen = rec.snapshot();
         let r0 = slot_results[0].lock().clone();
         let r1 = slot_results[1].lock().clone();
@@ -776,11 +787,21 @@ pub fn check(case: &Case, out: &mut CaseOut) {
         out.nontrivial(&(case.reliable, &case.events));
     }
 
+    // judged by the instant the message ARRIVED (slow writes can delay when it surfaces)
+    let mut arrival = vec![];
+    let mut tt = 0u64;
+    for (g, _) in &case.events {
+        tt += g;
+        arrival.push(tt);
+    }
+    let arrived_before_cutoff = |marker: &str| -> bool {
+        marker.get(1..).and_then(|i| i.parse::<usize>().ok()).and_then(|i| arrival.get(i)).map_or(true, |t| *t < cutoff)
+    };
     let seen: Vec<String> = obs
         .seen
         .iter()
-        .filter(|s| s.t_ms < cutoff)
         .map(|s| s.marker.clone().unwrap_or_default())
+        .filter(|m| arrived_before_cutoff(m))
         .collect();
     out.note = Some(format!(
         "layers saw {:?}; slot results {:?} / {:?}; cutoff {:?}",
@@ -814,11 +835,11 @@ pub fn check(case: &Case, out: &mut CaseOut) {
     for s in 0..2 {
         let got: Vec<String> = obs.slot_results[s]
             .iter()
-            .filter(|(t, _)| *t < cutoff)
             .filter_map(|(_, r)| match r {
                 Res::Resp(_, m) => Some(m.clone()),
                 _ => None,
             })
+            .filter(|m| arrived_before_cutoff(m))
             .collect();
         let want = &pred.slot_results[s];
         let mut wi = 0;
